@@ -484,6 +484,31 @@ def run(ctx):
                 chk.violation("R14.1", "store:%s" % b["path"], "%s stores the result at the %s position, expected the left operand's position" % (b["path"], stored), where)
                 ok = False
                 break
+        # a tracker that is created locally must have a bit per operand of the reduced vector (R14.3)
+        if ok:
+            t0, p0 = gen[0]
+            trk_v = rel.canon([e for e in t0.events if e[0] == "call" and e[1] == TR + "get_previous"][0][2][0])
+            lu = loops.loop_unknown(trk_v)
+            firsts = [u for u in loops.trips(p0, b["path"], 0) if u.header == t0.header]
+            if lu is not None and firsts and lu[1] in firsts[0].pre and not isinstance(_strip_views(firsts[0].pre[lu[1]]), Sym):
+                T0 = firsts[0].pre[lu[1]]
+                # the reduced vector: the one whose elements at the two positions are taken
+                vecs = set()
+                for e in t0.events:
+                    if e[0] == "call" and e[1] in ("std::mem::replace", "std::mem::take") and e[2]:
+                        tgt = rel.canon(e[2][0])
+                        if isinstance(tgt, App) and tgt.fn.endswith("index_mut"):
+                            r0 = tgt.args[0]
+                            while isinstance(r0, App) and r0.fn.startswith("mut:") and r0.args:
+                                r0 = rel.canon(r0.args[0])
+                            l2 = loops.loop_unknown(r0)
+                            if l2 is not None and l2[1] in firsts[0].pre:
+                                vecs.add(l2[1])
+                good_cap = len(vecs) == 1 and _words_for(T0, firsts[0].pre[next(iter(vecs))])
+                if good_cap:
+                    chk.ok("R14.3", "%s: local tracker has 1 + len/64 zeroed words for the reduced vector" % b["path"].split("::")[-1], "", where)
+                else:
+                    chk.violation("R14.3", "capacity:%s" % b["path"], "%s reduces a vector with a locally created tracker %s that is not 1 + len(vector)/64 zeroed words" % (b["path"], rel.cstr(T0)[:100]), where)
         if ok:
             chk.ok("R14.1", "%s: operator i on (i - get_previous(i), i + consume_next(i)), result stored left" % b["path"].split("::")[-1], "%d general trips" % len(gen), where)
     if nred < 2:
